@@ -10,6 +10,7 @@ package main
 import (
 	"encoding/hex"
 	"fmt"
+	"os"
 	"strings"
 
 	"github.com/idena-network/idena-go/blockchain/types"
@@ -39,6 +40,35 @@ func decode(entry string) (uint16, *types.Transaction) {
 		panic(err)
 	}
 	return ep, tx
+}
+
+// reoffer presents every transaction of the history again at the state replica r stands on:
+// (a) to the pool, (b) to the strict block processing (a hostile proposer bypasses the pool),
+// (c) to the building path.
+func reoffer(c *chainmc.Ctx, r *replica.Replica, hist []string) bool {
+	if len(hist) == 0 {
+		return true
+	}
+	hdr := r.Chain.VerifProposeBlockWithTxs([]byte{}, nil).Block.Header
+	for _, e := range hist {
+		ep, tx := decode(e)
+		c.Count("reoffers", 1)
+		if err := r.Pool.AddExternalTxs(validation.InboundTx, tx); err == nil {
+			c.Violation("pool-accepts-replay", fmt.Sprintf("pool accepted tx %s (type %d nonce %d epoch %d) that was already included in epoch %d", tx.Hash().Hex(), tx.Type, tx.AccountNonce, tx.Epoch, ep), nil)
+			return false
+		}
+		if err := r.Chain.VerifProcessTxs([]*types.Transaction{tx}, hdr); err == nil {
+			c.Violation("block-processing-accepts-replay", fmt.Sprintf("processTxs accepted tx %s (type %d nonce %d epoch %d) already included in epoch %d", tx.Hash().Hex(), tx.Type, tx.AccountNonce, tx.Epoch, ep), nil)
+			return false
+		}
+		blk := r.Chain.VerifProposeBlockWithTxs([]byte{}, []*types.Transaction{tx}).Block
+		if len(blk.Body.Transactions) != 0 {
+			c.Violation("builder-includes-replay", fmt.Sprintf("ProposeBlock included tx %s already included in epoch %d", tx.Hash().Hex(), ep), nil)
+			return false
+		}
+		c.Outcome(fmt.Sprintf("replay type=%d same-epoch=%v rejected", tx.Type, ep == r.App.State.Epoch()))
+	}
+	return true
 }
 
 func newModel(thorough bool) *chainprop.Model {
@@ -92,28 +122,6 @@ func newModel(thorough bool) *chainprop.Model {
 				}
 			}
 		}
-		// re-offer every previously included tx at this state (t.A is at the pre-state head)
-		for _, e := range histOf(t.St.Aux) {
-			ep, tx := decode(e)
-			c.Count("reoffers", 1)
-			// (a) pool
-			if err := t.A.Pool.AddExternalTxs(validation.InboundTx, tx); err == nil {
-				c.Violation("pool-accepts-replay", fmt.Sprintf("pool accepted tx %s (type %d nonce %d epoch %d) that was already included in epoch %d", tx.Hash().Hex(), tx.Type, tx.AccountNonce, tx.Epoch, ep), nil)
-				return false
-			}
-			// (b) strict processing of a body containing only the replayed tx
-			if err := t.A.Chain.VerifProcessTxs([]*types.Transaction{tx}, t.Block.Header); err == nil {
-				c.Violation("block-processing-accepts-replay", fmt.Sprintf("processTxs accepted tx %s (type %d nonce %d epoch %d) already included in epoch %d", tx.Hash().Hex(), tx.Type, tx.AccountNonce, tx.Epoch, ep), nil)
-				return false
-			}
-			// (c) building path given the replayed tx explicitly
-			blk := t.A.Chain.VerifProposeBlockWithTxs([]byte{}, []*types.Transaction{tx}).Block
-			if len(blk.Body.Transactions) != 0 {
-				c.Violation("builder-includes-replay", fmt.Sprintf("ProposeBlock included tx %s already included in epoch %d", tx.Hash().Hex(), ep), nil)
-				return false
-			}
-			c.Outcome(fmt.Sprintf("replay type=%d same-epoch=%v rejected", tx.Type, ep == t.A.App.State.Epoch()))
-		}
 		return true
 	}
 	m.H.Inserted = func(t *chainprop.Trans) bool {
@@ -164,6 +172,24 @@ func newModel(thorough bool) *chainprop.Model {
 			hs = append(hs, e[:strings.IndexByte(e, ':')+17])
 		}
 		t.NextAux["keyx"] = " hist=" + strings.Join(hs, ",")
+		if os.Getenv("VERIF_C06_DEBUG") != "" {
+			st := t.A.App.State
+			fmt.Fprintf(os.Stderr, "DEBUG h=%d flags=%b txs=%d X1 bal=%v nonce=%d epoch=%d | X2 bal=%v | lastSnapshot=%d period=%d netsize=%d\n", t.Block.Height(), t.Block.Header.Flags(), len(t.Block.Body.Transactions),
+				st.GetBalance(world.A(world.X1)), st.GetNonce(world.A(world.X1)), st.GetEpoch(world.A(world.X1)), st.GetBalance(world.A(world.X2)), st.LastSnapshot(), st.ValidationPeriod(), t.A.App.ValidatorsCache.NetworkSize())
+		}
+		if os.Getenv("VERIF_C06_DEBUG") != "" {
+			for i, tx := range t.Txs {
+				if tx == nil {
+					fmt.Fprintf(os.Stderr, "DEBUG   tmpl %d n/a\n", i)
+				} else {
+					fmt.Fprintf(os.Stderr, "DEBUG   tx amount=%v maxfee=%v nonce=%d admit=%v\n", tx.Amount, tx.MaxFee, tx.AccountNonce, t.Admit[i])
+				}
+			}
+		}
+		// re-offer the whole history (this block's txs included) at the state after this block
+		if c.Check && !reoffer(c, t.A, hist) {
+			return false
+		}
 		if c.Check && len(hist) > 2 {
 			c.Sample(map[string]interface{}{"scenario": t.M.Scn[t.Scn], "trace": c.Labels(), "history_len": len(hist), "epoch": ep})
 		}
@@ -183,7 +209,7 @@ func main() {
 		chainmc.ReplayFile(run, m)
 		return
 	}
-	run.SetBudget(5*60e9, 20*60e9)
+	run.SetBudget(8*60e9, 20*60e9)
 	depth := 5
 	if run.Thorough() {
 		depth = 6
